@@ -519,6 +519,18 @@ theorem C08_close_during_handshake_witness :
       s.stream = true := by
   refine ⟨_, rfl, ?_⟩; decide
 
+/-- Witness for a wait whose request is sent with a context detached from the caller's (the legacy SSE handshake's stream
+    request, `start`: `context.WithoutCancel(ctx)`; open finding `calls:sse:initialize_ignores_context_before_stream_headers`):
+    the caller's context ends and no case of the wait is ready; only Close() ends the call — with an error. -/
+theorem C08_detached_wait_witness :
+    ∃ s, run { Facts.allGood with selCtx := false } { t := .sse, connected := false } (init { t := .sse, connected := false })
+        [.issue 0, .ctxDone 0] = some s ∧ (s.calls 0).ctxDone = true ∧
+      (∀ k, step { Facts.allGood with selCtx := false } { t := .sse, connected := false } s (.complete 0 k) = none) ∧
+      ∃ s', run { Facts.allGood with selCtx := false } { t := .sse, connected := false } s
+        [.closeBegin, .closeEnd, .complete 0 .closedChan] = some s' ∧ (s'.calls 0).returned = some .err := by
+  refine ⟨_, rfl, by decide, ?_, ⟨_, rfl, by decide⟩⟩
+  intro k; cases k <;> decide
+
 /-- Witness for a body that is not closed (D18): a Streamable call with an SSE answer returns at the result; after Close,
     with everything quiescent, its response body is still held. -/
 theorem C08_body_leak_witness :
